@@ -3,9 +3,13 @@ import RsddModel.Lemmas.Wmc
 /-!
 # Lemmas: top-down compilation to decision-DNNF (C06)
 
-Part 1: node-store contract, the standard store, conditioning.
+Part 1: node-store contract (`NodeStore.Sound`), the standard store, conditioning (`condHelper_spec`).
 Part 2: residual formulas.
-Part 3: solver specification, `topdownH_correct`, `compileTopdown_correct`.
+Part 3: implied-literal chains, `GoodM` and the cache-reuse lemma `GoodM.transfer`, unfolding of
+        `topdownH`, `topdownH_hit_after`.
+Part 4: the semantic store under `CollisionFree`.
+The solver specification and the main induction are in `Lemmas/TopDownSolver.lean`, the instance
+for the reference solver in `Lemmas/TopDownNaive.lean`, the property statements in `Props/C06.lean`.
 -/
 namespace TopDown
 open Spec Bdd
@@ -536,48 +540,50 @@ end
 def Agrees (n m : Ptr) : Prop :=
   (∀ a, m.eval a = n.eval a) ∧ (∀ x ∈ m.vars, x ∈ n.vars) ∧ (n.free → m.free)
 
-/-- the store state is keyed by the hash of the stored node -/
-def SemInv (semHash : Ptr → Nat) (st : List (Nat × Ptr)) : Prop := ∀ e ∈ st, e.1 = semHash e.2
+/-- the store state is keyed by the table key of the hash of the stored node -/
+def SemInv {H : Type} (semHash : Ptr → H) (key : H → H) (st : List (H × Ptr)) : Prop :=
+  ∀ e ∈ st, e.1 = key (semHash e.2)
 
 /-- **H-coll**, the collision hypothesis of the semantic store, in the form the structural
-theorems need: a node with the hash (resp. the negated hash) of a requested node may stand in
-for it (resp. for its complement): same function, no further variables, free if the request is.
-By pigeonhole this is false for a hash into a finite field as soon as there are more
-functions than field elements; it holds e.g. for an injective `semHash` whose range `negH`
-avoids.  (For the *function* alone the weaker `CollisionFreeFn` suffices, see
-`getOrInsertSemantic_eval`.) -/
-def CollisionFree (semHash : Ptr → Nat) (negH : Nat → Nat) : Prop :=
-  ∀ n m : Ptr, (semHash m = semHash n → Agrees n m) ∧ (semHash m = negH (semHash n) → Agrees n m.neg)
+theorems need: a node whose table key is that of the hash (resp. of the negated hash) of a
+requested node may stand in for it (resp. for its complement): same function, no further
+variables, free if the request is.  By pigeonhole this is false for a hash into a finite field
+as soon as there are more functions than field elements; it holds e.g. for injective
+`key ∘ semHash` whose range `key ∘ negH ∘ semHash` avoids.  (For the *function* alone the
+weaker `CollisionFreeFn` suffices, see `getOrInsertSemantic_eval`.) -/
+def CollisionFree {H : Type} (semHash : Ptr → H) (negH key : H → H) : Prop :=
+  ∀ n m : Ptr, (key (semHash m) = key (semHash n) → Agrees n m) ∧
+    (key (semHash m) = key (negH (semHash n)) → Agrees n m.neg)
 
-/-- function-level collision freedom: equal hashes ⇒ equal functions, complementary hashes ⇒
+/-- function-level collision freedom: equal keys ⇒ equal functions, complementary keys ⇒
 complementary functions -/
-def CollisionFreeFn (semHash : Ptr → Nat) (negH : Nat → Nat) : Prop :=
-  ∀ n m : Ptr, (semHash m = semHash n → ∀ a, m.eval a = n.eval a) ∧
-    (semHash m = negH (semHash n) → ∀ a, m.eval a = !(n.eval a))
+def CollisionFreeFn {H : Type} (semHash : Ptr → H) (negH key : H → H) : Prop :=
+  ∀ n m : Ptr, (key (semHash m) = key (semHash n) → ∀ a, m.eval a = n.eval a) ∧
+    (key (semHash m) = key (negH (semHash n)) → ∀ a, m.eval a = !(n.eval a))
 
 theorem Agrees.refl (n : Ptr) : Agrees n n := ⟨fun _ => rfl, fun _ h => h, fun h => h⟩
 
-theorem find?_key {st : List (Nat × Ptr)} {h : Nat} {e : Nat × Ptr}
+theorem find?_key {H : Type} [DecidableEq H] {st : List (H × Ptr)} {h : H} {e : H × Ptr}
     (he : st.find? (fun e => e.1 == h) = some e) : e ∈ st ∧ e.1 = h := by
   have h1 := List.find?_some he
   simp only [beq_iff_eq] at h1
   exact ⟨List.mem_of_find?_eq_some he, h1⟩
 
 /-- what `get_or_insert` of the semantic store returns, in terms of `Agrees` -/
-theorem getOrInsertSemantic_agrees {semHash : Ptr → Nat} {negH : Nat → Nat}
-    (hcf : CollisionFree semHash negH) {st : List (Nat × Ptr)} (hst : SemInv semHash st)
+theorem getOrInsertSemantic_agrees {H : Type} [DecidableEq H] {semHash : Ptr → H} {negH key : H → H}
+    (hcf : CollisionFree semHash negH key) {st : List (H × Ptr)} (hst : SemInv semHash key st)
     (v : Nat) (lo hi : Ptr) :
-    Agrees (.node false v lo hi) (getOrInsertSemantic semHash negH st v lo hi).1 ∧
-    SemInv semHash (getOrInsertSemantic semHash negH st v lo hi).2 := by
+    Agrees (.node false v lo hi) (getOrInsertSemantic semHash negH key st v lo hi).1 ∧
+    SemInv semHash key (getOrInsertSemantic semHash negH key st v lo hi).2 := by
   unfold getOrInsertSemantic
   simp only
-  cases h1 : st.find? (fun e => e.1 == semHash (.node false v lo hi)) with
+  cases h1 : st.find? (fun e => e.1 == key (semHash (.node false v lo hi))) with
   | some e =>
     obtain ⟨hm, hk⟩ := find?_key h1
     exact ⟨(hcf _ e.2).1 ((hst e hm).symm.trans hk), hst⟩
   | none =>
     simp only
-    cases h2 : st.find? (fun e => e.1 == negH (semHash (.node false v lo hi))) with
+    cases h2 : st.find? (fun e => e.1 == key (negH (semHash (.node false v lo hi)))) with
     | some e =>
       obtain ⟨hm, hk⟩ := find?_key h2
       exact ⟨(hcf _ e.2).2 ((hst e hm).symm.trans hk), hst⟩
@@ -589,28 +595,29 @@ theorem getOrInsertSemantic_agrees {semHash : Ptr → Nat} {negH : Nat → Nat}
       · simp only [List.mem_singleton] at h; subst h; rfl
 
 /-- the semantic store satisfies the node-store contract under `CollisionFree` -/
-theorem semanticStore_sound {semHash : Ptr → Nat} {negH : Nat → Nat} (hcf : CollisionFree semHash negH) :
-    (semanticStore semHash negH).Sound (SemInv semHash) where
+theorem semanticStore_sound {H : Type} [DecidableEq H] {semHash : Ptr → H} {negH key : H → H}
+    (hcf : CollisionFree semHash negH key) :
+    (semanticStore semHash negH key).Sound (SemInv semHash key) where
   inv_step := fun _ ht v lo hi => (getOrInsertSemantic_agrees hcf ht v lo hi).2
   eval_eq := fun _ ht v lo hi a => (getOrInsertSemantic_agrees hcf ht v lo hi).1.1 a
   vars_sub := fun _ ht v lo hi => (getOrInsertSemantic_agrees hcf ht v lo hi).1.2.1
   free := fun _ ht v lo hi => (getOrInsertSemantic_agrees hcf ht v lo hi).1.2.2
 
 /-- with function-level collision freedom alone the returned pointer denotes the request -/
-theorem getOrInsertSemantic_eval {semHash : Ptr → Nat} {negH : Nat → Nat}
-    (hcf : CollisionFreeFn semHash negH) {st : List (Nat × Ptr)} (hst : SemInv semHash st)
+theorem getOrInsertSemantic_eval {H : Type} [DecidableEq H] {semHash : Ptr → H} {negH key : H → H}
+    (hcf : CollisionFreeFn semHash negH key) {st : List (H × Ptr)} (hst : SemInv semHash key st)
     (v : Nat) (lo hi : Ptr) (a : Assign) :
-    (getOrInsertSemantic semHash negH st v lo hi).1.eval a = (Ptr.node false v lo hi).eval a ∧
-    SemInv semHash (getOrInsertSemantic semHash negH st v lo hi).2 := by
+    (getOrInsertSemantic semHash negH key st v lo hi).1.eval a = (Ptr.node false v lo hi).eval a ∧
+    SemInv semHash key (getOrInsertSemantic semHash negH key st v lo hi).2 := by
   unfold getOrInsertSemantic
   simp only
-  cases h1 : st.find? (fun e => e.1 == semHash (.node false v lo hi)) with
+  cases h1 : st.find? (fun e => e.1 == key (semHash (.node false v lo hi))) with
   | some e =>
     obtain ⟨hm, hk⟩ := find?_key h1
     exact ⟨(hcf _ e.2).1 ((hst e hm).symm.trans hk) a, hst⟩
   | none =>
     simp only
-    cases h2 : st.find? (fun e => e.1 == negH (semHash (.node false v lo hi))) with
+    cases h2 : st.find? (fun e => e.1 == key (negH (semHash (.node false v lo hi)))) with
     | some e =>
       obtain ⟨hm, hk⟩ := find?_key h2
       refine ⟨?_, hst⟩
